@@ -3,6 +3,7 @@ CONSTANTS Kinds = {"plain"}
           MixedServerSet = {}
           MixedCoreServers = {}
           MixedMethKeys = {"G", "GP"}
+          PlainMethKeys = {"G", "P", "GP"}
           MaxLen = 2
           MaxT = 2
           ServerSet = {"none"}
